@@ -12,7 +12,7 @@ from props import binder
 from props import visitlib as vl
 
 PID = "C17"
-TABLES = ["RC"]
+TABLES = ["RC", "C17"]
 ROOT_RE = re.compile(r"^\*?([^.\[\(]*)")
 
 WITNESSES = '''
@@ -202,7 +202,13 @@ def run(tier, seed, build):
                 "attributes and items) + witnesses; per function: real FunctionAnalyser vs Lean model (the ordered list of "
                 "diagnostics must agree), then each real 'potentially undefined' warning is checked against an independent "
                 "straight-line binder, and undefined / deleted names must be warned about. non-trivial = distinct function "
-                "with >= 1 local binding")
+                "with >= 1 local binding. OPTIONS stage (props/c17opts.py): generated projects (target + followed "
+                "local modules / package) with every kind of module-level binder, names the run's -x patterns do / do not "
+                "match, @rattr_ignore / @rattr_results, -F, -f 0..3 through argv / --config toml; the whole pipeline "
+                "in-process (parse_arguments -> Config -> main) and through the real CLI; a 'potentially undefined' "
+                "warning about a name CPython has in that module's namespace is a violation; every module also goes "
+                "through the Lean root-context / file-analyser model under the run's exclusion patterns; non-trivial "
+                "there = distinct project run with >= 1 exclusion pattern that ended normally")
     rng = random.Random(seed)
     n_modules = 60 if tier == "quick" else 900
     model = common.Model()
@@ -211,6 +217,12 @@ def run(tier, seed, build):
     cases = vl.run_batch(rng, n_modules, model, extra_sources=[(PREAMBLE + WITNESSES, wit_names)])
     cases += vl.run_file_batch(rng, n_modules // 3, model)
     __import__("props.filestage").filestage.run_file_stage(res, random.Random(seed + 7017), 120 if tier == "quick" else 1500, model)
+    # the options that touch definitions (-x, -F, -f, @rattr_ignore, @rattr_results): whole projects, in-process
+    # exactly as the CLI would + the real CLI, CPython's own module namespaces as the oracle (props/c17opts.py)
+    from props import c17opts
+    quick = tier == "quick"
+    c17opts.run_options_stage(res, random.Random(seed + 17017), 50 if quick else 700, model,
+                              n_cli=12 if quick else 90, n_model=30 if quick else 350)
     trees = {}
     for c in cases:
         res.evaluations += 1
@@ -311,11 +323,21 @@ def run(tier, seed, build):
     res.assumptions = [
         "[interp] straight-line reading: a name counts as bound at a use only if a PREVIOUS statement (or an enclosing header: for / with / except / match / comprehension) bound it",
         "[interp] warnings located inside nested def / lambda / class bodies are not judged",
+        "[interp] options stage: a module-level name is what CPython's import of the module leaves in vars(module); "
+        "targets of a module-level for / with statement are bindings but none of 'definition, import or assignment': "
+        "warnings about them are counted, not judged",
+        "[interp] options stage: a walrus at module level counts as an assignment",
+        "[interp] options stage, must-warn: only plain undecorated module-level defs of the TARGET whose name matches no -x "
+        "pattern are required to warn about a name bound nowhere (which imports are followed is C12's subject)",
     ]
     return res
 
 
 def replay(path):
     import json
-    print(json.dumps(json.load(open(path)), indent=1)[:5000])
+    d = json.load(open(path))
+    if isinstance(d.get("case"), dict) and d["case"].get("stage") == "options":
+        from props import c17opts
+        return c17opts.replay(d)
+    print(json.dumps(d, indent=1)[:5000])
     return 0
